@@ -295,14 +295,22 @@ CLAIMED.update({
 })
 
 CLAIMED.update({
-    "C19": _c("Coq (coq/Properties/C19.v, 18 obligations, no bounds): sequential and Blelloch block scans equal the scan of the concatenated "
+    "C19": _c("Coq (coq/Properties/C19.v, 38 obligations, no bounds): sequential and Blelloch block scans equal the scan of the concatenated "
               "blocks for every monoid and every block count (the general up-sweep/down-sweep invariant is proved), native sliding-window "
               "and moving-window banded kernels equal the NumPy window definition for every supported (chunks, window) (associative + "
               "commutative op: a hypothesis the proof forced, true of every reducer in the table), sliding chunks are a valid layout, "
               "ensure_minimum_chunksize contract, overlap blocks are windows of the padded array, trim is the inverse, map_overlap of a "
               "radius-r stencil equals the global stencil for all five boundary kinds (1-D); " + _TIE + " (block plans, chunks, Blelloch "
-              "wiring read back from the real layer); N-d, diff/gradient by value against NumPy.", "5/C19",
-              _TB + "models are per axis; N-d behaviour by execution.", "Coq proof over Gallina model + differential correspondence"),
+              "wiring read back from the real layer).  DIFF / GRADIENT (DiffGrad.v): da.diff (repeated r[1:] - r[:-1] with prepend/append) "
+              "= the NumPy definition = the signed-binomial closed form, with length max(0, len - n); the gradient PLAN (guard on every "
+              "chunk >= edge_order + 1, map_overlap depth 1 boundary none, per-block np.gradient kernel, trim) = numpy.gradient of the whole "
+              "array, proved generically over the kernels and instantiated for unit spacing (integers, twice the gradient), scalar spacing "
+              "h in Q and coordinate arrays (NumPy's non-uniform second-order formulas in Q), edge_order 1 and 2; the guard only rejects "
+              "(without it the pipeline still equals NumPy wherever NumPy is defined); array_locs coordinate windows = block + halo.  Tie: "
+              "real MapOverlap node (depth, boundary, chunks), block ids / kwargs recorded by wrapping _gradient_kernel, extended and trimmed "
+              "blocks and exact values compared with the model inside Coq; sliced results and several axes by value.", "38/C19",
+              _TB + "models are per axis (N-d = lanes along the axis); NumPy's shortcut for equally spaced coordinate arrays and the "
+              "edge_order / varargs validation are not modelled; non-power-of-two spacings are compared within 1e-9 of the exact Q value.", "Coq proof over Gallina model + differential correspondence"),
 })
 
 NOT_APPLICABLE = {
